@@ -285,7 +285,7 @@ def P(e, o):
         return e.name
     if k == 'var':
         nm = e.name
-        if e.extra == 'local':
+        if e.extra in ('local', 'this'):
             nm = o.prefix + nm
         if e.isd:  # reference-typed: pointer in C
             return '(*%s)' % nm
